@@ -10,7 +10,7 @@ import numpy as np
 import scipy.sparse as sp
 from hypothesis import strategies as st
 
-from vf.harness import Clause, Info, require, Skip
+from vf.harness import Clause, Info, require, Skip, Violation
 from vf import ref_c16 as R
 
 from enspara import ra
@@ -370,7 +370,7 @@ def run_roundtrip(case):
     require(mapping_dict(m2.mapping_) == snap[3], "state mapping changed by save/load",
             before=snap[3], after=mapping_dict(m2.mapping_))
     C2, T2 = dense(m2.tcounts_), dense(m2.tprobs_)
-    p2 = np.atleast_1d(np.asarray(m2.eq_probs_))     # a one-state model loads as a 0-d array (not asserted)
+    p2 = np.asarray(m2.eq_probs_)
     require(C2.shape == snap[0].shape and np.array_equal(C2, snap[0]), "counts changed by save/load",
             before=snap[0].tolist(), after=C2.tolist())
     require(T2.shape == snap[1].shape and np.array_equal(T2, snap[1]),
@@ -922,6 +922,225 @@ def run_thousand(case):
                 key=[case[k_] for k_ in sorted(case)])
 
 
+# --------------------------------------------------------------------------
+# stateful clause: the life of ONE estimator object (Hypothesis RuleBasedStateMachine, recorded as a JSON history)
+#
+# operations: construct, reconfigure (set_params / public attributes), fit(data k), refused fit (assignments beyond the
+# declared state count), save + load (the loaded object takes the original's place), fit again ...
+# invariant after every step: if the object has been fitted successfully, its counts, transition probabilities,
+# populations and mapping are those of the function pipeline run with the configuration it had AT THAT FIT on the data
+# OF THAT FIT; its configuration attributes are the ones last set.
+
+from hypothesis.stateful import RuleBasedStateMachine, rule, initialize, precondition    # noqa: E402
+
+LIFE_METHODS = ["name:normalize", "name:transpose", "fn:normalize"]
+
+
+def life_data(seed, n_states, lag):
+    """Strongly connected at every lag <= 2 by construction: each state is held for two frames while a cycle is walked
+    forwards and backwards, followed by seeded random steps."""
+    rng = np.random.RandomState(seed)
+    cyc = list(range(n_states)) + list(range(n_states - 2, -1, -1)) if n_states > 1 else [0, 0]
+    base = [s_ for s_ in cyc for _ in range(2)] * 2
+    trajs = [base + rng.randint(0, n_states, size=rng.randint(0, 12)).tolist()]
+    for _ in range(rng.randint(0, 3)):
+        t = rng.randint(0, n_states, size=rng.randint(1, 10)).tolist()
+        trajs.append(t)
+    return trajs
+
+
+class LifeCore:
+    def __init__(self):
+        self.m = None
+        self.cfg = None
+        self.fitted = None       # (cfg at fit, trajs, how)
+
+    def pipeline(self, cfg, trajs, how):
+        a = make_assigns(trajs, how)
+        fn = method_fn(cfg["method"])
+        with np.errstate(all="ignore"):
+            C = assigns_to_counts(a, cfg["lag"], max_n_states=cfg["mns"], sliding_window=cfg["sliding"])
+            if cfg["trim"]:
+                mp, C = trim_disconnected(C)
+                want_map = mapping_dict(mp)
+            else:
+                want_map = {i: i for i in range(C.shape[0])}
+            Cp, Tp, pip = fn(C)
+        return dense(Cp), dense(Tp), np.asarray(pip), want_map
+
+    def check(self, where):
+        m = self.m
+        if m is None:
+            return
+        cfg = self.cfg
+        require(m.lag_time == cfg["lag"] and m.sliding_window == cfg["sliding"] and m.max_n_states == cfg["mns"]
+                and m.trim == cfg["trim"], "the estimator's configuration attributes are not the ones last set",
+                after=where, got=dict(lag=m.lag_time, sliding=m.sliding_window, mns=m.max_n_states, trim=m.trim), want=cfg)
+        if self.fitted is None:
+            return
+        fcfg, trajs, how = self.fitted
+        Cw, Tw, pw, mapw = self.pipeline(fcfg, trajs, how)
+        require(mapping_dict(m.mapping_) == mapw, "state mapping differs from the function pipeline of the last fit",
+                after=where, got=mapping_dict(m.mapping_), want=mapw)
+        Cm = dense(m.tcounts_)
+        require(Cm.shape == Cw.shape and np.array_equal(Cm, Cw), "counts differ from the function pipeline of the last fit",
+                after=where, got=Cm.tolist(), want=Cw.tolist(), cfg=fcfg)
+        require(close(dense(m.tprobs_), Tw, TOL_SAME), "transition probabilities differ from the function pipeline of the "
+                "last fit", after=where, cfg=fcfg)
+        require(close(np.atleast_1d(np.asarray(m.eq_probs_)), np.atleast_1d(pw), TOL_SAME),
+                "populations differ from the function pipeline of the last fit", after=where, cfg=fcfg)
+
+    def step(self, op):
+        k = op["op"]
+        if k == "construct":
+            c = op["cfg"]
+            self.m = MSM(lag_time=c["lag"], method=METHODS[c["method"]], trim=c["trim"], sliding_window=c["sliding"],
+                         max_n_states=c["mns"])
+            self.cfg = dict(c)
+            self.fitted = None
+        elif k == "reconfigure":
+            new = dict(self.cfg)
+            new.update(op["changes"])
+            ch = {"lag_time": new["lag"], "sliding_window": new["sliding"], "max_n_states": new["mns"], "trim": new["trim"]}
+            ch = {a_: v for a_, v in ch.items() if {"lag_time": "lag", "sliding_window": "sliding", "max_n_states": "mns",
+                                                     "trim": "trim"}[a_] in op["changes"]}
+            if op["how"] == "set_params":
+                self.m.set_params(**ch)
+            else:
+                for a_, v in ch.items():
+                    setattr(self.m, a_, v)
+            self.cfg = new
+        elif k == "fit":
+            trajs = life_data(op["seed"], op["n_states"], self.cfg["lag"])
+            if self.cfg["mns"] is not None and op["n_states"] > self.cfg["mns"]:
+                raise Skip("harness: data beyond the declared state count belongs to refused_fit")
+            a = make_assigns(trajs, op["how"])
+            with np.errstate(all="ignore"):
+                self.m.fit(a)
+            self.fitted = (dict(self.cfg), trajs, op["how"])
+        elif k == "refused_fit":
+            # assignments that visit a state beyond the declared count: the counting function refuses them; whatever the
+            # estimator does, it must remain the model of its last successful fit with its configuration untouched
+            bad = [[int(self.cfg["mns"])] * 8]         # every counted pair (any lag, sliding or not) involves the state
+            try:
+                with np.errstate(all="ignore"):
+                    self.m.fit(make_assigns(bad, "padded"))
+            except Exception:
+                pass
+            else:
+                raise Violation("fit() accepted assignments that visit state %d although max_n_states=%d"
+                                % (self.cfg["mns"], self.cfg["mns"]))
+        elif k == "save_load":
+            d = tempfile.mkdtemp(prefix="c16life-")
+            try:
+                path = os.path.join(d, "model")
+                self.m.save(path)
+                m2 = MSM.load(path)
+            finally:
+                shutil.rmtree(d, ignore_errors=True)
+            require(bool(m2 == self.m) and bool(self.m == m2), "loaded model != saved model according to MSM.__eq__")
+            self.m = m2                   # life goes on with the loaded object
+            # the stored configuration is documented as (lag_time, sliding_window, trim, method): a declared state count
+            # is not part of it, the loaded object has none
+            self.cfg = dict(self.cfg, mns=None)
+        else:
+            raise ValueError(k)
+        self.check(k)
+
+    @staticmethod
+    def replay(history):
+        c = LifeCore()
+        for op in history:
+            c.step(op)
+        return c
+
+
+def life_info(history):
+    kinds = [h["op"] for h in history]
+    fits = kinds.count("fit")
+    cl = ["life_op=" + k for k in sorted(set(kinds))] + ["life_fits=%d" % min(fits, 3), "life_steps=%d+" % (len(kinds) // 5 * 5)]
+    # non-trivial: a fit that FOLLOWS a reconfiguration or a save/load or a refused fit of an already fitted object
+    nt = False
+    seen_fit = False
+    pending = False
+    for k in kinds:
+        if k == "fit":
+            nt = nt or (seen_fit and pending)
+            seen_fit, pending = True, False
+        elif k in ("reconfigure", "save_load", "refused_fit"):
+            pending = True
+    return Info(nt, cl)
+
+
+def run_life(case):
+    LifeCore.replay(case["history"])
+    return life_info(case["history"])
+
+
+def make_life_machine(hooks):
+    cfg_st = st.fixed_dictionaries({"lag": st.integers(1, 2), "method": st.sampled_from(LIFE_METHODS), "trim": st.just(True),
+                                    "sliding": st.booleans(), "mns": st.sampled_from([None, None, 4, 6])})
+
+    class MSMLife(RuleBasedStateMachine):
+        def __init__(self):
+            super().__init__()
+            self.core = LifeCore()
+            self.history = []
+            self.dead = False
+
+        def do(self, op):
+            if self.dead or hooks.over_budget():
+                self.dead = True
+                return
+            self.history.append(op)
+            try:
+                self.core.step(op)
+            except Skip:
+                self.history.pop()
+            except Exception as exc:
+                self.dead = True
+                if hooks.failed(list(self.history), exc):
+                    return
+                raise
+
+        @initialize(cfg=cfg_st)
+        def construct(self, cfg):
+            self.do({"op": "construct", "cfg": cfg})
+
+        @precondition(lambda self: not self.dead and self.core.m is not None)
+        @rule(data=st.data())
+        def reconfigure(self, data):
+            keys = data.draw(st.lists(st.sampled_from(["lag", "sliding", "mns"]), min_size=1, max_size=3, unique=True))
+            ch = {}
+            for k_ in keys:
+                ch[k_] = data.draw({"lag": st.integers(1, 2), "sliding": st.booleans(), "mns": st.sampled_from([None, 4, 6])}[k_])
+            self.do({"op": "reconfigure", "changes": ch, "how": data.draw(st.sampled_from(["set_params", "setattr"]))})
+
+        @precondition(lambda self: not self.dead and self.core.m is not None)
+        @rule(data=st.data())
+        def fit(self, data):
+            mns = self.core.cfg["mns"]
+            n_states = data.draw(st.integers(1, mns if mns is not None else 6))
+            self.do({"op": "fit", "seed": data.draw(st.integers(0, 10 ** 6)), "n_states": n_states,
+                     "how": data.draw(st.sampled_from(["ragged", "padded"]))})
+
+        @precondition(lambda self: not self.dead and self.core.m is not None and self.core.cfg["mns"] is not None)
+        @rule()
+        def refused_fit(self):
+            self.do({"op": "refused_fit"})
+
+        @precondition(lambda self: not self.dead and self.core.m is not None and self.core.fitted is not None)
+        @rule()
+        def save_load(self):
+            self.do({"op": "save_load"})
+
+        def teardown(self):
+            if not self.dead and self.history:
+                hooks.done(list(self.history), life_info(self.history))
+
+    return MSMLife
+
+
 CLAUSES = [
     Clause("pipeline", assign_case(), run_pipeline, quick=640, thorough=8000, exhaustive=exhaustive_configs,
            doc="MSM(**cfg).fit(a) == builder(trim?(assigns_to_counts(a, lag, sliding, max_n_states)))"),
@@ -929,6 +1148,9 @@ CLAUSES = [
            doc="MSM.fit == function pipeline also when -1 entries precede assigned frames"),
     Clause("pipeline_thousand_states", thousand_case(), run_thousand, quick=12, thorough=120,
            doc="999..1200 states, core + source / sink / one-way-bridge states, trim=True: estimator == pipeline == core"),
+    Clause("estimator_life", None, run_life, quick=200, thorough=4000, stateful=make_life_machine, steps=12,
+           doc="stateful: construct / reconfigure / fit / refused fit / save+load histories of one estimator object; after every "
+               "step it is the function pipeline of its last successful fit"),
     Clause("refit", refit_case(), run_refit, quick=300, thorough=4000,
            doc="fitting the same estimator object again equals the pipeline on the new data"),
     Clause("roundtrip", assign_case(), run_roundtrip, quick=320, thorough=4000,
